@@ -624,14 +624,13 @@ fn find_tsig_algorithm_or_write_error(
         Some(algorithm)
     } else {
         response.set_rcode(Rcode::NOTAUTH);
-        response
-            .set_tsig(
-                writer::TsigMode::Unsigned {
-                    algorithm: tsig_rr.algorithm().to_owned(),
-                },
-                PreparedTsigRr::new_from_read(tsig_rr, now, TSIG_FUDGE, ExtendedRcode::BADKEY),
-            )
-            .unwrap();
+        set_tsig_or_truncate(
+            response,
+            writer::TsigMode::Unsigned {
+                algorithm: tsig_rr.algorithm().to_owned(),
+            },
+            PreparedTsigRr::new_from_read(tsig_rr, now, TSIG_FUDGE, ExtendedRcode::BADKEY),
+        );
         None
     }
 }
@@ -656,14 +655,13 @@ fn find_tsig_key_or_write_error<'k>(
         Some(key)
     } else {
         response.set_rcode(Rcode::NOTAUTH);
-        response
-            .set_tsig(
-                writer::TsigMode::Unsigned {
-                    algorithm: tsig_rr.algorithm().to_owned(),
-                },
-                PreparedTsigRr::new_from_read(tsig_rr, now, TSIG_FUDGE, ExtendedRcode::BADKEY),
-            )
-            .unwrap();
+        set_tsig_or_truncate(
+            response,
+            writer::TsigMode::Unsigned {
+                algorithm: tsig_rr.algorithm().to_owned(),
+            },
+            PreparedTsigRr::new_from_read(tsig_rr, now, TSIG_FUDGE, ExtendedRcode::BADKEY),
+        );
         None
     }
 }
@@ -725,13 +723,27 @@ fn verify_tsig_and_write_tsig_rr(
         };
 
     response.set_rcode(rcode);
-    response
-        .set_tsig(
-            mode,
-            PreparedTsigRr::new_from_read(tsig_rr, now, TSIG_FUDGE, tsig_err),
-        )
-        .unwrap();
-    rcode == Rcode::NOERROR
+    let tsig_set = set_tsig_or_truncate(
+        response,
+        mode,
+        PreparedTsigRr::new_from_read(tsig_rr, now, TSIG_FUDGE, tsig_err),
+    );
+    rcode == Rcode::NOERROR && tsig_set
+}
+
+/// Configures the response to carry the given TSIG RR and returns
+/// whether this succeeded. It fails when the TSIG RR does not fit
+/// within the size limit of the response, which can only happen over
+/// UDP (e.g. a 512-octet limit and long key and algorithm names). In
+/// that case the response is sent without a TSIG RR and with the TC
+/// bit set, so that the client retries over TCP, where the RR fits.
+fn set_tsig_or_truncate(response: &mut Writer, mode: writer::TsigMode, rr: PreparedTsigRr) -> bool {
+    if response.set_tsig(mode, rr).is_ok() {
+        true
+    } else {
+        response.set_tc(true);
+        false
+    }
 }
 
 ////////////////////////////////////////////////////////////////////////
